@@ -78,6 +78,15 @@ def shadowedIn : LexTable → List (String × String)
         | none => none
      | none => []) ++ shadowedIn rest
 
+/-- the rule of `tag` is a literal followed by a word boundary `\\b` -/
+def hasBoundary (tbl : LexTable) (tag : String) : Bool :=
+  match dictGet tbl tag with
+  | some (.one (.re src)) =>
+    match reOf src with
+    | some (.kw _) => true
+    | _ => false
+  | _ => false
+
 /-- position of the first rule with a tag -/
 def ruleIndex (tbl : LexTable) (tag : String) : Nat := tbl.findIdx (fun r => r.1 == tag)
 
